@@ -91,7 +91,7 @@ CHECKS = {
         "Pending buffer observed through the guarded accessor TcpTransport::verif_pending_chunks; policy None.", "7/C10"),
 "C12": ("exploration", "deterministic simulation: (a) seeded message histories through the real SendBuffer / MessageWriter with sequence headers inspected; (b) MITM reorder / duplicate / drop / hold / replay of a raw client's chunks before the real server reader loop; accepted-implies-fresh oracle",
         "Oracle: chunk numbers step by exactly one, request ids unique; a message the server answers consisted of consecutive numbers above every accepted one with one request id; a replayed accepted message is not answered again.",
-        "Policy None so the MITM stage can read sequence headers; client-side receiver is exercised in C35's world.", "7/C12"),
+        "Policy None so the MITM stage can read sequence headers. The client-side receiver is exercised in C35's world (duplicate, unknown-id, reordered and incomplete multi-chunk responses; an incomplete message completing Ok is reported as C12/incomplete-message-accepted).", "7/C12"),
 "C18": ("fault_enumeration", "deterministic simulation with a disk node: the enumerated decision table (9216 configurations) plus seeded histories of validations interleaved with administrator moves, disk faults on stored copies / store directories and simulated clock jumps, against the real CertificateStore on a scratch PKI directory; decision-table reference model",
         "Oracle: Good => not in rejected/, byte-identical trusted copy (or trust-unknown and no copy), key length valid for the policy, and unless skip-verify: inside validity at the simulated time (when check-time), host and URI match; unknown and untrusted => in rejected/ afterwards; accepted => not in rejected/ afterwards.",
         "Runs as root: permission faults not injectable. Wall clock through the verif clock seam (fixed mode).", "7/C18"),
@@ -104,9 +104,9 @@ CHECKS = {
 "C38": ("exploration", "deterministic simulation: (a) lock seam in record mode under the two-connection service swarm with timer ticks, disconnects and an application actor: per-run lock graph over instances with modes, call sites and gate locks, searched for mode- and gate-feasible cycles; (b) baton threads (L3): two real OS threads, one connection each, run real server code; every blocking lock acquisition is a scheduling point decided by a seeded scheduler over a reader/writer lock model; a state with every unfinished thread parked and none grantable is a deadlock and the choice sequence is the replay schedule",
         "Oracle: no feasible cycle in the held->acquired graph (Read-vs-Read edges do not block; two edges serialised by a common exclusively-held gate lock cannot coexist); no re-entrant acquisition of one instance when a writer exists; no reachable deadlock under the baton scheduler.",
         "Server construction and application set-up are not recorded (no task exists yet). Signatures name the lock types of the cycle and the file in which the out-of-order outer lock was taken (documented order ServerState, Session, AddressSpace is used for naming only). 8 known findings (Call and CreateSession paths), see DESIGN.md.", "7/C38"),
-"C14": ("exploration", "deterministic simulation: seeded interleavings of requests, renew-begin / renew-end and forged-token requests from a raw client on secured channels against the real server tasks; token-epoch reference model, acceptance observed through the request's effect",
+"C14": ("exploration", "deterministic simulation: seeded interleavings of requests, renew-begin / renew-end and forged-token requests from a raw client on secured channels against the real server tasks (token-epoch reference model, acceptance observed through the request's effect), and of the real client's own renewals against a scripted server that answers held requests under the new token",
         "Oracle: a request secured under the server's current token, or the previous one while nothing newer has been received, takes effect; a request under a never-issued token (foreign keys or unknown token id) never does.",
-        "Server side only (all policies x Sign/SignAndEncrypt, RSA 2048); the real client's handling of new-token responses is not covered.", "7/C14"),
+        "Two halves: server side (raw client, all policies x Sign/SignAndEncrypt, RSA 2048) and client side (every third run: the real AsyncSecureChannel renews at 75 % of a 1-4 s lifetime while the scripted server still owes responses and answers them under the new token in the same burst as, or shortly after, its OpenSecureChannel response).", "7/C14"),
 }
 
 def main():
